@@ -143,6 +143,8 @@ def run_chunk(chunk, ctx):
     names = [f"f{i}.c" for i in range(n)]
     if how == "twice":
         names[1] = names[0]
+        # the same file mentioned twice has the same content: same class both times
+        ex.solver.add(fatal[1].z == fatal[0].z, nerr[1].z == nerr[0].z, lev[1][0].z == lev[0][0].z, lev[1][1].z == lev[0][1].z)
     paths = []
     for b in names:
         p = os.path.join(tmp, b)
@@ -258,17 +260,22 @@ def replay(case):
     classes, fmt, how = case["classes"], case["fmt"], case["how"]
     tmp = tempfile.mkdtemp(prefix="nverif-")
     try:
-        names, paths = [], []
-        for i, c in enumerate(classes):
-            b = f"f{i}.c"
-            if how == "twice" and i == 1:
-                b = names[0]
-                classes = list(classes)
-                classes[1] = classes[0]
-            else:
-                open(os.path.join(tmp, b), "w").write(HEADER_TMPL.format(file=b) + "\n" + SAMPLES[c])
-            names.append(b)
-            paths.append(os.path.join(tmp, b))
+        # `classes` is in PROCESSING order.  For a directory argument the processing order is the tool's own glob
+        # order, so create the files first, ask glob for the order, then give the k-th processed file class k.
+        names = [f"f{i}.c" for i in range(len(classes))]
+        if how == "twice" and len(names) > 1:
+            names[1] = names[0]
+            classes = list(classes)
+            classes[1] = classes[0]
+        for b in set(names):
+            open(os.path.join(tmp, b), "w").write("")
+        order = list(names)
+        if how == "dir":
+            import glob
+            order = [os.path.basename(p) for p in glob.glob(tmp + "/**/*.[ch]", recursive=True)]
+        for b, c in zip(order, classes):
+            open(os.path.join(tmp, b), "w").write(HEADER_TMPL.format(file=b) + "\n" + SAMPLES[c])
+        paths = [os.path.join(tmp, b) for b in names]
         args = ["/venv/bin/python", "-m", "norminette", "--no-colors", "-f", fmt]
         cwd = tmp
         if how == "dir":
@@ -281,12 +288,7 @@ def replay(case):
         exc = None
         if "Traceback (most recent call last)" in r.stderr:
             exc = r.stderr.strip().splitlines()[-1].split(":")[0]
-        # directory order: the tool's own glob order
-        order = names
-        if how == "dir":
-            import glob
-            order = [os.path.basename(p) for p in glob.glob(tmp + "/**/*.[ch]", recursive=True)]
-        truth = [classes[names.index(b)] for b in order]
+        truth = list(classes)
         viol = judge(truth, order, r.returncode, exc, r.stdout, fmt)
         return dict(digest=dict(ok=not viol), violations=[list(x) for x in viol])
     finally:
